@@ -467,6 +467,34 @@ def c10_case(a, b, thr, verbose, dt, dr):
     return ("sx_c10 %d %s" % (verbose, run), exp, {"t1": repr(a), "t2": repr(b), "thr": thr, "verbose": verbose})
 
 
+IO_HDR = ("From DD Require Import Base.PyStr Base.Value Path.PathModel Diff.Tree Diff.DiffModel Diff.TextView Diff.DiffShow "
+          "Hash.HashModel DiffIO.DiffIOModel DiffIO.DiffIOShow Views.ViewsModel Views.ViewsShow.")
+
+
+def io_case(a, b, verbose, dt, dr):
+    """one Coq case: all presentations of an ignore_order run (report_repetition=False), the
+    model being fed the pairings the implementation used (recorded as in C05)"""
+    from deepdiff import DeepDiff
+    from harness.props import c05
+    with c05.Recording() as rec:
+        d2 = DeepDiff(a, b, ignore_order=True, view="tree", verbose_level=verbose)
+        tbl = c05.pairs_table(rec)
+        if not all(c05.pairs_valid(x) for x in rec):
+            return None
+    if D.tree_obs(d2) != D.tree_obs(dr):
+        return None
+    try:
+        js = json_obs(dt.to_json())
+    except (TypeError, UnicodeDecodeError):
+        js = "raise"
+    exp = [core.sx_sorted(pretty_statements(dt)), js,
+           ["text", D.text_obs(dr.to_dict(view_override="text"))],
+           ["tree", D.tree_obs(dt.to_dict(view_override="tree"))]]
+    run = "(fst (run_diff_io hexhash (tbl_udiff %s) no_paths no_paths %s false (tbl_pairs %s) %s %s))" % (
+        D.coq_udiff_table(D.udiff_table(a, b)), D.coq_cfg(False, 0.33), c05.coq_pairs_table(tbl), V.to_coq(a), V.to_coq(b))
+    return ("sx_c10_es %d %s" % (verbose, run), exp, {"t1": repr(a), "t2": repr(b), "mode": "ignore_order", "verbose": verbose})
+
+
 def value_case(v):
     try:
         js = jcanon(json.loads(_dumps(v), object_pairs_hook=Pairs))
@@ -552,7 +580,7 @@ MODES = (("ordered", {}), ("ignore_order", {"ignore_order": True}),
          ("ignore_order+repetition", {"ignore_order": True, "report_repetition": True}))
 
 
-def one_pair(ctx, t1, t2, cases, corr=True):
+def one_pair(ctx, t1, t2, cases, corr=True, iocases=None):
     a, b = copy.deepcopy(t1), copy.deepcopy(t2)
     sa, sb = D.snapshot(a), D.snapshot(b)
     thr = ctx.rng.choice([0.33, 0.33, 0])
@@ -569,6 +597,13 @@ def one_pair(ctx, t1, t2, cases, corr=True):
                     cases.append(c10_case(a, b, thr, verbose, dt, dr))
             else:
                 ctx.count("outside_model_guard")
+        if mode == "ignore_order" and corr and iocases is not None and D.in_model_guard(a, b) and repr_in_model(a, b) and not non_utf8_bytes(a, b):
+            for verbose, (dt, dr) in runs.items():
+                c = io_case(a, b, verbose, dt, dr)
+                if c is None:
+                    ctx.count("io_case_skipped")
+                else:
+                    iocases.append(c)
     if D.snapshot(a) != sa or D.snapshot(b) != sb:
         ctx.fail(dict(t1=repr(t1), t2=repr(t2), clause="inputs modified"), "a presentation modified an input")
 
@@ -593,12 +628,13 @@ def replay_witnesses(ctx):
 
 def run(ctx):
     pairs = gen_pairs(ctx, 2400 if ctx.thorough else 330)
-    cases = []
+    cases, iocases = [], []
     for t1, t2 in pairs:
-        one_pair(ctx, t1, t2, cases)
+        one_pair(ctx, t1, t2, cases, iocases=iocases)
     for c in cases[:3]:
         ctx.sample(c[2])
     ctx.coq_cases("c10", HDR, cases, shard=60, label="all_presentations_ordered")
+    ctx.coq_cases("c10io", IO_HDR, iocases, shard=60, label="all_presentations_ignore_order")
     vcases = []
     for _ in range(1500 if ctx.thorough else 300):
         v = gen_val(ctx.rng, 3, 3)
